@@ -274,7 +274,7 @@ def hole(name, default, c1, c2, c3):
     return S(P('k'), c1, c2, c3) if P('hole') == name else default
 
 
-@lemma('H2.link', 'C08', quick=holes(['target', 'title', 'text'], 1) + [{'hole': 'title', 'k': 2}], thorough=holes(['target', 'title', 'text'], 3), timeout=900,
+@lemma('H2.link', 'C08', quick=holes(['target', 'title', 'text'], 2), thorough=holes(['target', 'title', 'text'], 3), timeout=900,
        stubs=['urllib.parse.quote -> contract stub', 'token built directly'],
        covers=['html_renderer.py:HtmlRenderer.render_link', 'html_renderer.py:HtmlRenderer.escape_url'])
 def h2_link(c1: int, c2: int, c3: int, dq: bool, sq: bool) -> bool:
@@ -289,7 +289,7 @@ def h2_link(c1: int, c2: int, c3: int, dq: bool, sq: bool) -> bool:
     return wf_html(r.render(tok))
 
 
-@lemma('H2.image', 'C08', quick=holes(['src', 'title', 'alt'], 1) + [{'hole': 'src', 'k': 2}], thorough=holes(['src', 'title', 'alt'], 3), timeout=900,
+@lemma('H2.image', 'C08', quick=holes(['src', 'title', 'alt'], 2), thorough=holes(['src', 'title', 'alt'], 3), timeout=900,
        stubs=['urllib.parse.quote -> contract stub', 'token built directly'],
        covers=['html_renderer.py:HtmlRenderer.render_image', 'html_renderer.py:HtmlRenderer.render_to_plain'])
 def h2_image(c1: int, c2: int, c3: int, dq: bool, sq: bool) -> bool:
@@ -349,7 +349,7 @@ def at_sign(at, *cs):
     return True
 
 
-@lemma('H2.code', 'C08', quick=by('fenced', [False, True], holes(['language', 'content'], 1)), thorough=by('fenced', [False, True], holes(['language', 'content'], 3)), timeout=1800,
+@lemma('H2.code', 'C08', quick=by('fenced', [False, True], holes(['language', 'content'], 1)) + [{'fenced': True, 'hole': 'language', 'k': 2}, {'fenced': True, 'hole': 'content', 'k': 2}], thorough=by('fenced', [False, True], holes(['language', 'content'], 3)), timeout=1800,
        stubs=['tokens built directly'],
        covers=['html_renderer.py:HtmlRenderer.render_inline_code', 'html_renderer.py:HtmlRenderer.render_block_code'])
 def h2_code(c1: int, c2: int, c3: int, fenced: bool, dq: bool, sq: bool) -> bool:
@@ -435,6 +435,8 @@ def h2_blocks(c1: int, level: int, d1: int, d2: int, is_one: bool, ordered: bool
         tok = mk(block_token.Table, column_align=[al], children=[row] * nkids)
         if header:
             tok.header = row
+        else:
+            tok._absent_ = ('header',)       # Table.__init__ sets .header only when there is a delimiter row
     else:
         both = [_para(text), mk(block_token.Quote, children=[_para(text)])]
         item = mk(block_token.ListItem, children=[both[i] for i in range(nkids)],
